@@ -306,7 +306,12 @@ C14 = [
 ] + [
     _ma("hwloc_memattr_register", cost=60, note="exactly one of HIGHER/LOWER_FIRST else EINVAL, NULL name EINVAL, duplicate name EBUSY, success appends with next id; <= 2 existing attributes, 2-char names"),
 ]
+C14_REFRESH_WIP = [   # not registered: did not finish within 10 minutes on this image (DESIGN.md section 3, C14); run with ./check C14WIP
+    Job(name="hwloc__imattr_refresh", driver="memattrs.refresh.drv.c", entry="hp_hwloc__imattr_refresh", mode="plain", unwind=5, objbits=12, min_post=0, cost=60, family="memattrs", label="bounded", malloc_may_fail=False, timeout=1200,
+        note="hwloc__imattr_refresh / hwloc__imtg_refresh / hwloc__imi_refresh after the topology changed: <= 2 targets with <= 2 initiators each (object or cpuset, arbitrary values), every survival pattern of the objects, every root cpuset over an 8-PU universe: exactly the surviving targets and initiators remain, in order, with their values and refreshed object pointers; cpuset initiators are intersected with the topology cpuset; cpusets of removed initiators are released exactly once; the cache is marked valid"),
+]
 PROPS["C14"] = C14
+PROPS["C14WIP"] = C14_REFRESH_WIP
 
 
 # ------------------------------------------------------------------ C05 leaf: base64.c (bounded)
@@ -336,10 +341,13 @@ C06 += [
     for tag, head in (("version", '"<topology version=\\"2.0\\""'), ("v1", '"<topology"'), ("root", '"<roo"'), ("xmldecl", '"<?xml version=\\"1.0\\"?>\\n<topology version=\\"2.0\\""'), ("empty", '""'))
 ]
 def _xi(name, unwind=8, cost=120, **kw):
-    return Job(name=name, driver="xml.drv.c", entry="hp_" + name, mode="plain", unwind=unwind, min_post=0, cost=cost, family="xmlimport", label="bounded", timeout=1500, **kw)
-C06 += [
-    _xi("xml_import_distances", note="hwloc__xml_import_distances (distances2 / distances2hetero) against the CONTRACT of the XML state API: any sequence of <= 5 attributes (names from the pool of every name the function knows plus an unknown one, values arbitrary strings <= 2 chars), <= 3 children (info / indexes / u64values / unknown) with arbitrary contents <= 4 chars, numbers <= 7, any topology flags and XML version: memory safe (stores into the arrays sized from nbobjs stay inside), returns 0/-1, hands at most one complete matrix to the core"),
+    return Job(name=name, driver="xml.drv.c", entry=kw.pop("entry", "hp_" + name), mode="plain", unwind=unwind, min_post=0, cost=cost, family="xmlimport", label="bounded", timeout=1500, objbits=12, **kw)
+XML_IMPORT_WIP = [
+    _xi("xml_import_distances.n%d" % n, entry="hp_xml_import_distances", defines={"XNBOBJS": n}, note="[nbobjs attribute = %d] " % n + "hwloc__xml_import_distances (distances2 / distances2hetero) against the CONTRACT of the XML state API: any sequence of <= 5 attributes (names from the pool of every name the function knows plus an unknown one, values arbitrary strings <= 2 chars), <= 3 children (info / indexes / u64values / unknown, <= 2 attributes each) with arbitrary contents <= 3 chars, any numbers, any topology flags and XML version: memory safe (stores into the arrays sized from nbobjs stay inside), returns 0/-1, hands at most one complete matrix to the core")
+    for n in (2,)
 ]
+# not registered: the SAT back end runs out of memory on this job (DESIGN.md section 3, C06); kept for the next session
+PROPS["C06WIP"] = XML_IMPORT_WIP
 PROPS["C06"] = C06 + [j for j in C05 if j.name.startswith("base64_decode_safe")]   # the decoder is also a leaf of the XML import (userdata)
 
 
@@ -395,7 +403,7 @@ C07 += [
         note="hwloc_synthetic_process_indexes on the interleaving text of %d loops 'x*y:...' where every number stands for ANY value (number parser: exact end position, arbitrary value), any total <= 4: memory safe, no failed assertion, no division by zero, accepted interleavings yield in-range indexes" % l)
     for l in (1, 2, 3)
 ] + [
-    _sy("synth_process_indexes", unwind=13, cost=300, tiers=("thorough",), defs={"SLEN": 5, "IDX_TOTAL": 4}, timeout=900,
+    _sy("synth_process_indexes", unwind=13, cost=300, tiers=("thorough",), ttimeout=3600, defs={"SLEN": 5, "IDX_TOTAL": 4}, timeout=900,
         note="hwloc_synthetic_process_indexes on an arbitrary indexes text of <= 5 bytes for a level of <= 4 objects below <= 3 levels of arbitrary widths: memory safe, no failed assertion, an accepted list has `total` entries; strtoul/strtol contract stubs (any value, end anywhere)"),
 ]
 PROPS["C07"] = C07
